@@ -15,6 +15,20 @@ NA = {
 PENDING = "check under construction in this session (see DESIGN.md 10 build order)"
 
 CHECKS = {
+    "C07": dict(
+        category="proof",
+        text="A units-of-measure typing derivation over the monomorphic MIR: constructor arguments carry the units of the property statement "
+             "(location: Point, scale: L, rate: 1/L, shape: 1), field units are inferred from the constructor body, and `sample` is typed with "
+             "them (sub-samplers and closures entered). Obligations: no arithmetic on unlike units, transcendental/draw arguments dimensionless, "
+             "every branch condition compares like units, result unit as demanded; from_zscore typed with std_dev : L/Z, z : Z. A well-typed "
+             "program is equivariant under x -> a + b x (b > 0) over the reals and consumes the same RNG words — for ALL parameter pairs and streams.",
+        design_ref="DESIGN.md 2.4, 5/C07",
+        note="Trusted base: the typing rules in analysis/units.py. Real arithmetic (the floating-point rounding of the affine map is exactly the "
+             "'up to rounding' of the statement); b > 0; Pert::with_mean and Normal::from_mean_cv are not in the claim; a wrong dimensionless "
+             "constant is invisible.",
+        technique="dimensional (units-of-measure) type inference by abstract interpretation of rustc MIR",
+        engine="rdx+E3",
+    ),
     "C03": dict(
         category="other",
         text="Abstract interpretation of every sampler (33 families x f32/f64) on representatives of every constructor Ok outcome with finite "
